@@ -12,8 +12,9 @@ The *quick* table is the same for every seed (so that a replay never depends on 
     every static/dynamic pattern of rank 0..3 over static values {0,2,3} (85 patterns) and every static/dynamic mask of
     rank 4 (16 patterns, static values rotated through {2,3,0}), each with one index type (two for rank 1 and 2) chosen
     by rotation so that each of the 8 index types int8..uint64 meets every rank and many masks;  plus the patterns
-    [], [d], [3], [d,d], [2,d], [d,3] with all 8 index types, [d,d,d] with int8/uint8, [d,d,d,d] with int8/uint8/uint64.
-    (About 160 types: the compile time of one type is ~3 s with ASan+UBSan, this is what fits the quick budget.)
+    [], [d], [d,d], [2,d] with all 8 index types, [3], [d,3] with 4, [d,d,d] with int8/uint8, [d,d,d,d] with
+    int8/uint8/uint64.  Three quarters of the rank-3/4 rotation patterns are "light" (C19_TYPE_L: no mdspan<left/right>
+    and mdarray suites).  About 155 types: one full type costs ~3-4 s of compile time with ASan+UBSan.
 The *thorough* table adds a seeded sample of 300 further types (rank 1..4, static values 0..4, any index type).
 Types whose static extents alone are not representable (std: Mandates) are never emitted.
 Every type named by a saved case (replay/C19, violations/C19, known_findings.json) is added to every part, so a replay
@@ -65,13 +66,19 @@ def patterns(rank, values):
 
 
 def quick_table():
-    """pattern coverage (every pattern once or twice, index type by rotation) + index-type coverage (a few
-    representative patterns of every rank with all 8 index types)"""
+    """returns [(index type, pattern, full)]:  pattern coverage (every pattern, index type by rotation) + index-type
+    coverage (representative patterns of every rank with all / half of the 8 index types).
+    full=True : every sub-check;  full=False ("light") : extents + the three layout mappings + mdspan over layout_stride,
+    i.e. without the mdspan<left/right> and mdarray suites, whose code does not depend on the static/dynamic pattern
+    beyond what the mapping and extents checks already exercise (they cost 70 % of the compile time of a type)."""
     types = []
 
-    def add(it, pat):
-        if (it, pat) not in types:
-            types.append((it, pat))
+    def add(it, pat, full):
+        for i, t in enumerate(types):
+            if t[0] == it and t[1] == pat:
+                types[i] = (it, pat, t[2] or full)
+                return
+        types.append((it, pat, full))
 
     allit = [t[0] for t in ITYPES]
     k = 0
@@ -79,19 +86,22 @@ def quick_table():
         for pat in patterns(rank, [0, 2, 3, None]):
             n = {0: 8, 1: 2, 2: 2, 3: 1}[rank]
             for j in range(n):
-                add(ITYPES[(k + 3 * j) % 8][0], pat)
+                add(ITYPES[(k + 3 * j) % 8][0], pat, rank <= 2 or k % 4 == 1)
             k += 1
     rot = [2, 3, 0]
     for mask in range(16):
         pat = tuple(None if (mask >> (3 - i)) & 1 else rot[(mask + i) % 3] for i in range(4))
-        add(ITYPES[(mask * 3 + 1) % 8][0], pat)
-    for pat in [(None,), (3,), (None, None), (2, None), (None, 3)]:
+        add(ITYPES[(mask * 3 + 1) % 8][0], pat, mask % 4 == 2)
+    for pat in [(None,), (None, None), (2, None)]:
         for it in allit:
-            add(it, pat)
+            add(it, pat, True)
+    for pat in [(3,), (None, 3)]:
+        for it in ("i8", "u16", "i32", "u64"):
+            add(it, pat, True)
     for it in ("i8", "u8"):
-        add(it, (None, None, None))
+        add(it, (None, None, None), True)
     for it in ("i8", "u8", "u64"):
-        add(it, (None, None, None, None))
+        add(it, (None, None, None, None), True)
     return types
 
 
@@ -109,7 +119,7 @@ def thorough_extra(seed, have):
         if key in seen or not static_ok(it, pat):
             continue
         seen.add(key)
-        out.append(key)
+        out.append((it, pat, True))
     return out
 
 
@@ -164,18 +174,19 @@ def main():
     ap.add_argument("--list", action="store_true")
     a = ap.parse_args()
 
-    types = [t for t in quick_table() if static_ok(*t)]
+    types = [t for t in quick_table() if static_ok(t[0], t[1])]
     if a.tier == "thorough":
-        types += thorough_extra(a.seed, types)
-    # round-robin over the parts in table order: every part gets every rank and a mix of index types
-    mine = [t for i, t in enumerate(types) if i % a.nparts == a.part]
-    for t in saved_case_types():
-        if t not in mine:
-            mine.append(t)
+        types = [(it, pat, True) for it, pat, _ in types]  # thorough: every sub-check for every type
+        types += thorough_extra(a.seed, [(it, pat) for it, pat, _ in types])
+    # full types first, then light ones, each round-robin over the parts: every part gets the same mix of cost
+    order = [t for t in types if t[2]] + [t for t in types if not t[2]]
+    mine = [t for i, t in enumerate(order) if i % a.nparts == a.part]
+    for it, pat in saved_case_types():
+        mine = [t for t in mine if not (t[0] == it and t[1] == pat)] + [(it, pat, True)]
     lines = ["// generated by gen/C19_gen.py --part %d --nparts %d --seed %d --tier %s : %d types (of %d)" % (a.part, a.nparts, a.seed, a.tier, len(mine), len(types))]
-    for it, pat in mine:
+    for it, pat, full in mine:
         args = "".join(", " + ("D" if p is None else str(p)) for p in pat)
-        lines.append('C19_TYPE("%s", %s%s)' % (name_of(it, pat), IBYNAME[it][1], args))
+        lines.append('%s("%s", %s%s)' % ("C19_TYPE" if full else "C19_TYPE_L", name_of(it, pat), IBYNAME[it][1], args))
     path = os.path.join(a.out, "C19_types_%d.inc" % a.part)
     tmp = path + ".tmp%d" % os.getpid()
     with open(tmp, "w") as f:
